@@ -744,3 +744,37 @@ _upd('C09',
           'Size: 4^d*|out| <= |s|*V^d and the fan-out family attaining it (C09_output_bound, C09_fanout_exact).'),
      note_add='The oracle is the model, proved equal to the substitution relation (C09_model_iff_relation, C09_oracle_accepts_model). Environments hold up to 7 variables, fan-out up to 20 kB of result; only robsd-config -m canvas - '
               'and interpolate_str are run.')
+
+# ---------------------------------------------------------------------------------------------------------------
+# Corrections after the third (read-only) audit: wording brought in line with what the theorems state.
+def _fix(pid, field, old, new):
+    assert old in CLAIMS[pid][field], (pid, field, old[:40])
+    CLAIMS[pid][field] = CLAIMS[pid][field].replace(old, new)
+
+
+_fix('C14', 'text', 'Coq theorems (32, closed)', 'Coq theorems (closed; Properties_C14.v, two of them historical pins)')
+_fix('C14', 'text', 'and REFUTED for every qsort without it', 'and REFUTED without it (two witness inputs, each for every qsort)')
+_fix('C07', 'text', 'spec is EXACT for the code', 'spec is exact for the MODEL of the code')
+_fix('C06', 'text', 'and accept every model run.', 'and accept every model run with the handshake in time (the late-handshake runs are the known finding).')
+_fix('C16', 'text', 'NEWEST = most recently created holds exactly when the age list descends by name', 'NEWEST = most recently created holds when the age list descends by name')
+_fix('C18', 'text', 'which is the previous invocation exactly under name_order_is_age', 'which is the previous invocation under name_order_is_age')
+_fix('C05', 'text', 'C05_ports_cvs_logs_missing_refuted (D20)', 'C05_ports_cvs_logs_missing_refuted (da850b3)')
+_fix('C15', 'text', 'C15_B_omits_denoted_iff, _partial, _refuted,', 'C15_B_omits_denoted_iff, C15_B_omits_denoted_partial, C15_B_omits_denoted_directory_refuted,')
+_fix('C09', 'text', 'and the fan-out family attaining it (C09_output_bound, C09_fanout_exact)', 'and the fan-out family (C09_output_bound, C09_fanout_exact; that the family attains the bound is C12_interp_fanout_attains_bound)')
+_fix('C11', 'text', 'PARTIAL. Coq theorems on the same transition system', 'PARTIAL. Coq theorems (guards: wf_cfg - distinct step names, end last -, file_of_cfg, and fresh_ok for the accounting oracle) on the same transition system')
+_fix('C11', 'text', 'at the end nothing runs and no '
+     'record is in flight;', 'at the end nothing runs and no record of THIS invocation\'s steps is in flight (records of the initial file may be: C11_no_inflight_unless_killed_partial / _refuted);')
+_fix('C11', 'note', 'are parsed into statement lists by t_orch.py whose interpretation is proved to be the model', 'are parsed into statement lists by t_orch.py; the interpretation of the loop, step_exec_job and trap_exit lists is '
+     'proved to be the model, the ownership tests of lock_acquire / lock_release are pinned (which comparison they use) and run alone against the extracted lock model')
+_fix('C20', 'text', 'sort results are determined by key.', 'sort results are determined by key when keys are distinct.')
+_fix('C01', 'text', 'or by the row\'s name prints exactly that latest value', 'or by the row\'s name (the FIRST row of that name in id order) prints exactly that latest value')
+_fix('C12', 'note', 'Mutation is blind, not coverage-guided; fuzz-config/fuzz-step targets of the repository are not run.',
+     'Two kinds of search: the lanes step/regress/config/interp/report/html mutate grammar-derived seeds blindly at byte level and run the helpers themselves; the lane fuzz is coverage-guided: libFuzzer (clang 14, '
+     '-fsanitize=fuzzer,address,undefined) in process on a scratch copy, on the repository\'s own fuzz-config (all five modes) and fuzz-step targets built by the repository\'s `make fuzz` rule, and on five targets of this '
+     'framework (harness/c12_fuzz_{conf,stepread,interp,regresslog,report}.c: interpolation, the regress log functions, robsd-step -R, what robsd-config/-step -L/-hook/-ls do behind config_parse, the report generator). '
+     'Seeds are the grammar-derived inputs plus the stored corpus; dictionaries are generated from the sources; -timeout=5 is the "promptly" proxy; the seed derives from VERIF_SEED. Quick: 10 s per target (about 0.6 M '
+     'executions), thorough: 120 s per target on 2-3 processes (about 13 M executions); executions, edge coverage and corpus size per target are in the evidence. An artefact is an oracle failure (signature '
+     'fuzz-<target>-<class>-<function>) whose bytes replay. Limits: bounded by the time budget; coverage gives no signal for arithmetic conditions, so the int64-edge inputs of the report generator (two known findings: '
+     'signed overflow in steps_total_duration and format_duration_and_delta) are stored corpus cases; robsd-regress-html and robsd-ls behind its directory scan have no coverage-guided target; in this lane glob(3) '
+     'patterns with wildcards in more than one path component are answered "no match" and the temporary file of KS_tmpfd is a memory file; LeakSanitizer results are recorded as observations (two small leaks in '
+     'config_parse_canvas_step / config_get_steps: findings/C12_fuzz_canvas_step_command_leak.md), not failures.')
